@@ -219,7 +219,10 @@ TEMPLATES = ["machine.a", "machine.a + machine.b", "machine.a if machine.b > 5 e
              "machine.a + x", "-machine.a", "machine.a ** 2 % 3",
              # operands that are type-incompatible until a variable gets a value
              "machine.a > machine.u", "machine.u < machine.a", "(machine.u + 1) if machine.a == 3 else 0",
-             "machine.b if machine.a == 3 else (machine.u + 1)", "machine.a == 1 or machine.u > 2"]
+             "machine.b if machine.a == 3 else (machine.u + 1)", "machine.a == 1 or machine.u > 2",
+             # index access reads the same variables as attribute access
+             "device.counters.c['value']", "device['counters']['c']['value'] + machine['a']", "current_player['v']",
+             "players[0]['v']"]
 
 
 class FreshDriver(MachineDriver):
@@ -260,7 +263,6 @@ class FreshDriver(MachineDriver):
                                      u=self.m.variables.get_machine_var("u")),
                "settings": ns(s=self.m.settings.get_setting_value("s")), "players": players,
                "device": ns(counters=ns(c=ns(value=self.m.counters["c"].value)))}
-        env["machine"].__dict__["__getitem__"] = None
         if cur is not None:
             env["current_player"] = cur
         return env
@@ -299,16 +301,24 @@ class FreshDriver(MachineDriver):
     def py(self, src, env):
         """Python's value of the expression with all operands of and/or evaluated (the statement's semantics)."""
         import ast
-        mach = env["machine"]
+        import types as _types
 
-        class MachineView:
+        class View:
+            """Attribute and string-index access read the same variable (machine.a == machine["a"], for devices too)."""
+
+            def __init__(s, o):
+                s.__dict__["_o"] = o
+
             def __getattr__(s, k):
-                return getattr(mach, k)
+                return wrap(getattr(s.__dict__["_o"], k))
 
             def __getitem__(s, k):
-                return getattr(mach, k)
-        genv = dict(env)
-        genv["machine"] = MachineView()
+                o = s.__dict__["_o"]
+                return wrap(getattr(o, k)) if isinstance(k, str) else wrap(o[k])
+
+        def wrap(o):
+            return View(o) if isinstance(o, (_types.SimpleNamespace, list)) else o
+        genv = {k: wrap(v) for k, v in env.items()}
 
         def ev(node):
             if isinstance(node, ast.BoolOp):
